@@ -80,7 +80,7 @@ mod verif_condvar {
         use_store(&mut store);
         let st = state_with([TaskState::Runnable, BLOCKED, BLOCKED], 0, Rc::new(RefCell::new(SpecSched::new())));
         let m = Mutex::new_internal(0u8, SIG_M);
-        m.semaphore.verif_take(0);
+        m.verif_prepare_free();
         let mut waiters = Vec::with_capacity(4);
         waiters.push((TaskId::from(1), CondvarWaitStatus::Waiting));
         waiters.push((TaskId::from(2), CondvarWaitStatus::Waiting));
@@ -123,7 +123,7 @@ mod verif_condvar {
             i += 1;
         }
         // mutex re-held by me
-        assert!(m.state.borrow().holder == Some(TaskId::from(0)) && m.semaphore.available_permits() == 0);
+        assert!(m.verif_holder() == Some(TaskId::from(0)) && m.verif_permits() == 0);
         assert!(switches() == 4);
         kani::cover!(c1 == 0 && c2 == 0 && !mine_both); // the epoch sits BEHIND an older one in the others' lists
         kani::cover!(c1 == 1 && !mine_both);
